@@ -29,6 +29,7 @@ ASSUMPTIONS = [
     "(the '250+key=' line carries an empty first line)",
     "GETINFO keys are distinct within a call and never contain '=' or white space",
     "multi-line values are requested alone (statement: 'of a single requested key')",
+    "in 30% of the random cases an unsubscribed 650 event (single / multi-line / data form) is delivered between the command and its reply; it must not change the result",
 ]
 TRUSTED_BASE = ["vf.refs.reply", "vf.ctl.Session"]
 ANCHORS = ["txtorcon.torcontrolprotocol:parse_keywords", "txtorcon.torcontrolprotocol:unquote",
@@ -86,8 +87,13 @@ class Ctx(object):
         return self.s
 
 
-def call(s, api, keys, reply, cmdline):
+def call(s, api, keys, reply, cmdline, event=None):
     s.replies[cmdline.encode("ascii")] = reply
+    if event is not None:
+        # an asynchronous event reaches the client between the command and its reply
+        data = R.encode_event(event["name"], event["form"], event["text"], event.get("more", ()))
+        s.out += data
+        s.items.append(("event", -1, data.count(b"\r\n")))
     try:
         d = getattr(s.proto, api)(*keys)
     except Exception as e:
@@ -124,7 +130,7 @@ def run_case(case, rec, ctx):
             want_ok = [dict(zip(keys, vals))]
         parts.append(("end", "OK"))
         cmd = "GETINFO " + " ".join(keys)
-        o, exc = call(s, api, keys, (250, parts), cmd)
+        o, exc = call(s, api, keys, (250, parts), cmd, case.get("event"))
         if api == "get_info_single":
             want_ok = [w[keys[0]] for w in want_ok]
     else:
@@ -141,7 +147,7 @@ def run_case(case, rec, ctx):
         if vals is None:
             icls = "unset"
         cmd = "GETCONF " + key
-        o, exc = call(s, api, [key], (250, parts), cmd)
+        o, exc = call(s, api, [key], (250, parts), cmd, case.get("event"))
         want_ok = [want] if api == "get_conf_single" else [{key: want}]
     rec.case(case)
     errs = s.log.take()
@@ -231,6 +237,13 @@ def run_shard(spec, rec):
                     vals = [gen.text(rnd, maxlen=30, dots=False) for _ in range(rnd.choice([1, 1, 2, 3, 4, 5]))]
                 case = {"api": rnd.choice(["get_conf", "get_conf_single"]), "keys": [k], "values": vals}
             case["chunking"] = gen.chunking(rnd)
+            if rnd.random() < 0.3:
+                form = rnd.choice(["single", "multi", "data"])
+                case["event"] = {"name": rnd.choice(["CONF_CHANGED", "NS", "STREAM", "BW"]), "form": form,
+                                 "text": gen.first_text(rnd, maxlen=20),
+                                 "more": [] if form == "single" else
+                                 [rnd.choice(["SocksPort=9999", "Log=notice", "k=v", "x"]) for _ in range(rnd.randint(0, 3))]}
+                rec.count("cases_with_event_before_reply")
             run_case(case, rec, ctx)
             if i < 2:
                 rec.sample(case)
